@@ -75,7 +75,8 @@ def main():
 
             fd_out.seek(0)
             if args.outputfile:
-                fd_out = open(args.outputfile, mode='w', encoding='ascii')
+                with open(args.outputfile, mode='w', encoding='ascii') as fd_o:
+                    fd_o.write(fd_out.read())
             else:
                 if args.inplace:
                     with open(file_in, mode='w', encoding='ascii') as fd_orig:
